@@ -210,7 +210,9 @@ def check(ctx):
     for f, path, bi, span in trav:
         if f.id != WI or not path_ends(path, "HashMap::iter"):
             ctx.bad("R16.3", "hash-traversal/%s/%s" % (f.id, path.split("::")[-1]), "order-dependent traversal %s in %s" % (path, f.id), (span or {}).get("at"))
-    ctx.check(len(ok_sites) == 1, "R16.3", "positive-control/with_input-traversal-found", "%d HashMap::iter site(s) in with_input" % len(ok_sites))
+    # positive control: calls on hash containers are visible to this scan (the workspace keeps the input instructions in a HashMap)
+    hm_calls = sum(1 for f in lib for kind, path, full, rdef, rlocal, bi, span, t in fn_uses(f) if "collections::HashMap" in (path or "") or "collections::hash::map::HashMap" in (path or ""))
+    ctx.check(len(ok_sites) <= 1 and hm_calls >= 1, "R16.3", "positive-control/with_input-traversal-found", "%d HashMap::iter site(s) in with_input, %d HashMap method use(s) seen in library code" % (len(ok_sites), hm_calls))
     if ok_sites:
         f = F.fns[WI]
         good = False
